@@ -20,6 +20,20 @@ CLAIMS = {
         design_ref="DESIGN.md section 4 C03",
         technique="contract-based deductive verification (pyvc VCs discharged by z3) + bounded run-time contract checks",
         note=TB + "; slice step is per constant step (symbolic step is nonlinear); nested resolution is bounded only"),
+    "C04": dict(
+        category="other",
+        text="Hybrid. Proved (pyvc, quantified heap invariants, from the current source of hdl21/instance.py): "
+             "_Instance.connect/replace/disconnect and _get_connref/_get_portref preserve Inv_conn (conns[i][p] is c "
+             "<=> (i,p) in c._connected_ports) and Inv_refs (one PortRef per (instance, port)), their whole-view "
+             "postconditions (conns' and every back-reference set exactly as specified, nothing else changes), return "
+             "values, KeyError/TypeError exactly when documented, exceptional postconditions. Bounded (labelled): the "
+             "same contract evaluated at run time on real objects after every step of enumerated operation histories "
+             "over 8 connectable kinds.",
+        design_ref="DESIGN.md section 4 C04",
+        technique="contract-based deductive verification (pyvc VCs with quantified heap invariants, z3; finite-scope "
+                  "instantiation for counterexamples) + bounded run-time contract checks on operation histories",
+        note=TB + "; invariants assumed on entry (hold for fresh objects); __call__/__setattr__/_to_array and the "
+             "elaborated result are covered only by the bounded part"),
 }
 
 NA_REASON = "check not built yet (work in progress; see DESIGN.md section 4 for the plan)"
